@@ -99,20 +99,24 @@ func (ra *roAnalysis) isROTestCall(fa *FnAnalysis, st *State, call *ssa.Call, k 
 	return true
 }
 
-func (ra *roAnalysis) hasROFalse(fa *FnAnalysis, st *State, k int) bool {
-	for _, f := range st.facts {
-		if f.Kind != aTR || f.Val || f.T.K != "V" {
-			continue
-		}
-		call, ok := f.T.V.(*ssa.Call)
-		if !ok {
-			continue
-		}
-		if ra.isROTestCall(fa, st, call, k) {
-			return true
+func (ra *roAnalysis) roTestValue(fa *FnAnalysis, st *State, k int) (bool, bool) {
+	for _, b := range fa.fn.Blocks {
+		for _, in := range b.Instrs {
+			call, ok := in.(*ssa.Call)
+			if !ok || !ra.isROTestCall(fa, st, call, k) {
+				continue
+			}
+			if v, known := fa.knownTerm(st, aTR, fa.term(st, call)); known {
+				return v, true
+			}
 		}
 	}
-	return false
+	return false, false
+}
+
+func (ra *roAnalysis) hasROFalse(fa *FnAnalysis, st *State, k int) bool {
+	v, known := ra.roTestValue(fa, st, k)
+	return known && !v
 }
 
 // escapeCond finds a fact  Pj == ronly  in the state (the `|| cf == ronly`
@@ -147,11 +151,17 @@ func (ra *roAnalysis) initFalse(fa *FnAnalysis, st *State, k int) bool {
 				}
 			}
 		}
-		if f.Kind == aTR && !f.Val && f.T.K == "V" {
-			if call, ok := f.T.V.(*ssa.Call); ok {
-				if cal := ra.c.p.callee(&call.Call); cal != nil && (relName(cal) == "Stack.IsInit" || relName(cal) == "Condition.IsInit") {
-					t := fa.term(st, call.Call.Args[0])
-					if (t.K == "P" && t.N == k) || (t.K == "L" && t.A.K == "P" && t.A.N == k) {
+	}
+	for _, b := range fa.fn.Blocks {
+		for _, in := range b.Instrs {
+			call, ok := in.(*ssa.Call)
+			if !ok {
+				continue
+			}
+			if cal := ra.c.p.callee(&call.Call); cal != nil && (relName(cal) == "Stack.IsInit" || relName(cal) == "Condition.IsInit") {
+				t := fa.term(st, call.Call.Args[0])
+				if (t.K == "P" && t.N == k) || (t.K == "L" && t.A.K == "P" && t.A.N == k) {
+					if v, known := fa.knownTerm(st, aTR, fa.term(st, call)); known && !v {
 						return true
 					}
 				}
@@ -424,12 +434,8 @@ func (c *Ctx) ruleFreeRO() {
 		ok := true
 		for _, rs := range fa.rets {
 			isRO := false
-			for _, f := range rs.st.facts {
-				if f.Kind == aTR && f.Val && f.T.K == "V" {
-					if call, isCall := f.T.V.(*ssa.Call); isCall && ra.isROTestCall(fa, rs.st, call, 0) {
-						isRO = true
-					}
-				}
+			if v, known := ra.roTestValue(fa, rs.st, 0); known && v {
+				isRO = true
 			}
 			if !isRO {
 				continue
@@ -551,13 +557,9 @@ func (c *Ctx) ruleMask() {
 					wantPositive := relName(cal) == "(*cfgFlag).unshift"
 					for _, s := range fa.statesBefore(in) {
 						found := false
-						for _, f := range s.facts {
-							if f.Kind == aTR && f.T.K == "V" {
-								if pc, ok := f.T.V.(*ssa.Call); ok && relName(c.p.callee(&pc.Call)) == "cfgFlag.positive" {
-									if f.Val == wantPositive {
-										found = true
-									}
-								}
+						for _, pc := range c.findCalls(fn, "cfgFlag.positive") {
+							if v, known := fa.knownTerm(s, aTR, fa.term(s, pc)); known && v == wantPositive {
+								found = true
 							}
 						}
 						if !found {
